@@ -11,6 +11,7 @@ mod longhist;
 mod regexcache;
 mod net;
 mod req;
+mod scale;
 mod ser;
 mod util;
 
@@ -63,6 +64,7 @@ fn main() {
             }
             rep.write(&args[3]);
         }
+        "scale" => scale::run(&args[2], &args[3]),
         "c19seq" => conc::c19seq(&args[2]),
         #[cfg(not(feature = "unsync"))]
         "c19" => {
